@@ -101,8 +101,14 @@ def decodeEnum (toks : List String) : Option EnumDef := do
   let err ← decodeBool (← kv toks "err")
   let repr ← reprOfName (← kv toks "repr")
   let cis ← decodeBool (← kv toks "cis")
+  let dname := match kv toks "dname" with
+    | some s => (decodeOptStr s).getD none
+    | none => none
+  let dvis := match kv toks "dvis" with
+    | some s => s.toNat?.getD 0
+    | none => 0
   pure { name := name, style := style, ci := ci, pfx := pfx, usePhf := phf, customErr := err,
-         repr := repr, constIntoStr := cis, variants := [] }
+         repr := repr, constIntoStr := cis, variants := [], discName := dname, discVis := dvis }
 
 def decodeVariant (toks : List String) : Option Variant := do
   let ident ← decodeStr (← kv toks "ident")
